@@ -44,8 +44,10 @@ func init() {
 		var ki int
 		fmt.Sscanf(a[2], "%d", &ki)
 		key := rsaKey(ki)
-		i2 := type2.NewBasicPublicIssuer(key)
-		i3 := type3.NewRateLimitedIssuer(key)
+		if c18i2[ki] == nil {
+			c18i2[ki], c18i3[ki] = type2.NewBasicPublicIssuer(key), type3.NewRateLimitedIssuer(key)
+		}
+		i2, i3 := c18i2[ki], c18i3[ki]
 		// a caller that writes into the id it was given must not change what the issuer reports afterwards
 		scribble(i2.TokenKeyID())
 		scribble(i3.TokenKeyID())
@@ -112,6 +114,9 @@ func init() {
 		return "ok " + hxv(k.Marshal()) + " " + hxv(nk)
 	}
 }
+
+var c18i2 = map[int]*type2.BasicPublicIssuer{}
+var c18i3 = map[int]*type3.RateLimitedIssuer{}
 
 func scribble(b []byte) {
 	for i := range b {
